@@ -105,6 +105,10 @@ pub fn pool() -> Vec<String> {
     ] {
         v.push(s.to_string());
     }
+    // time values that are not in the compact form (they go through the converter's time units)
+    for s in ["---\ntime: 1 h 30 min\n---\nx", "---\ntime: 1 hora 30 minutos\nprep time: 10 mnt\n---\nx", ">> cook time: 2 horas\n>> prep time: 90 min\nx", "---\ntime: 90 m\n---\nx"] {
+        v.push(s.to_string());
+    }
     // units and numbers in text, spelled in other cases: probes for caches keyed on a normalised word
     for s in [
         "Add 1 Tbsp of @butter{}, 200 ML of @milk{} and wait 10 Min before serving.",
@@ -158,46 +162,55 @@ fn configs() -> Vec<(Extensions, Converter, &'static str)> {
         (Extensions::all(), Converter::bundled(), "all/bundled"),
         (Extensions::empty(), Converter::empty(), "none/empty"),
         (Extensions::COMPAT, Converter::bundled(), "compat/bundled"),
+        // a converter whose time units have other names and no `min`/`minute`/`m`: what one parser learns about units
+        // must not reach a parser that was built with other units
+        (Extensions::all(), crate::mon::c13::renamed_converter(false).0, "all/renamed_time_units"),
     ]
 }
 
+/// one history over ALL parsers of the process, interleaved call by call (state that is global to the process or the
+/// thread — a static, a thread-local — shows as a result that depends on which parser was used before)
 fn sequential(ctx: &mut Ctx, pool: &[String], log: &mut Log, calls: usize) {
     let cfgs = configs();
-    for (ci, (e, c, _)) in cfgs.iter().enumerate() {
-        let parser = CooklangParser::new(*e, c.clone());
-        let mut r = Rng::new(ctx.seed ^ ci as u64 ^ ((ctx.shard as u64) << 20));
-        for k in 0..calls {
-            let i = r.below(pool.len());
-            // one call in three goes through parse_with_options / parse_metadata_with_options
-            let opt = if k % 3 == 1 { 1 + r.below(3) } else { 0 };
-            let res = crate::core::guarded(|| {
-                let img = image_with(&parser, &pool[i], opt);
-                // interleave other operations on the same parser between parses
-                if k % 3 == 0 {
-                    if let Some(rec) = parser.parse(&pool[(i + 1) % pool.len()]).into_output() {
-                        let mut s = rec.scale(2.0, parser.converter());
-                        let _ = s.convert(System::Imperial, parser.converter());
-                        let _ = s.group_ingredients(parser.converter());
-                    }
+    let parsers: Vec<CooklangParser> = cfgs.iter().map(|(e, c, _)| CooklangParser::new(*e, c.clone())).collect();
+    let mut r = Rng::new(ctx.seed ^ ((ctx.shard as u64) << 20));
+    // the order in which the parsers are first used differs from process to process
+    let mut k = 0usize;
+    for _ in 0..calls * cfgs.len() {
+        k += 1;
+        let ci = r.below(cfgs.len());
+        let parser = &parsers[ci];
+        let i = r.below(pool.len());
+        // one call in three goes through parse_with_options / parse_metadata_with_options
+        let opt = if k % 3 == 1 { 1 + r.below(3) } else { 0 };
+        let res = crate::core::guarded(|| {
+            let img = image_with(parser, &pool[i], opt);
+            // interleave other operations on the same parser between parses
+            if k % 3 == 0 {
+                if let Some(rec) = parser.parse(&pool[(i + 1) % pool.len()]).into_output() {
+                    let mut s = rec.scale(2.0, parser.converter());
+                    let _ = s.convert(System::Imperial, parser.converter());
+                    let _ = s.group_ingredients(parser.converter());
                 }
-                img
-            });
-            match res {
-                Ok(img) => {
-                    log.record(i, ci + 10 * opt, hash64(img.as_bytes()));
-                    if opt > 0 {
-                        ctx.count("calls_with_parse_options");
-                    }
-                }
-                Err(_) => ctx.count("panic_in_parse(C03)"),
             }
-            if k % 50 == 0 {
-                // a fresh parser must agree with the reused one
-                let fresh = CooklangParser::new(*e, c.clone());
-                if let Ok(img) = crate::core::guarded(|| image_of(&fresh, &pool[i])) {
-                    log.record(i, ci, hash64(img.as_bytes()));
-                    ctx.count("fresh_parser_comparisons");
+            img
+        });
+        match res {
+            Ok(img) => {
+                log.record(i, ci + 10 * opt, hash64(img.as_bytes()));
+                if opt > 0 {
+                    ctx.count("calls_with_parse_options");
                 }
+            }
+            Err(_) => ctx.count("panic_in_parse(C03)"),
+        }
+        if k % 50 == 0 {
+            // a fresh parser must agree with the reused one
+            let (e, c, _) = &cfgs[ci];
+            let fresh = CooklangParser::new(*e, c.clone());
+            if let Ok(img) = crate::core::guarded(|| image_of(&fresh, &pool[i])) {
+                log.record(i, ci, hash64(img.as_bytes()));
+                ctx.count("fresh_parser_comparisons");
             }
         }
     }
